@@ -29,8 +29,9 @@ def load_baseline() -> Set[str]:
 
 # ----------------------------------------------------------------------------- helper classification
 class Helper:
-    def __init__(self, qual: str, node: ast.FunctionDef, cls: Optional[str], kind: str):
+    def __init__(self, qual: str, node: ast.FunctionDef, cls: Optional[str], kind: str, scope: Optional[str] = None):
         self.qual, self.node, self.cls, self.kind = qual, node, cls, kind
+        self.scope = scope                      # qualified name of the enclosing function for closures
         self.reason: Optional[str] = None       # why it cannot be inlined
 
 
@@ -181,6 +182,7 @@ class Inliner:
         self.helpers = helpers
         self.by_name = by_name
         self.counter = 0
+        self.current = ""
         self.log: List[Tuple[str, str]] = []
         self.skipped: List[Tuple[str, str, str]] = []
 
@@ -189,7 +191,10 @@ class Inliner:
         f = call.func
         if isinstance(f, ast.Name):
             for h in self.by_name.get(f.id, []):
-                if h.cls is None and h.qual.split(".")[0] == module:
+                if h.scope is not None and h.scope == self.current:
+                    return h, None
+            for h in self.by_name.get(f.id, []):
+                if h.cls is None and h.scope is None and h.qual.split(".")[0] == module:
                     return h, None
             return None, None
         if isinstance(f, ast.Attribute):
@@ -206,6 +211,7 @@ class Inliner:
 
     def inline_in_function(self, fn: ast.FunctionDef, module: str, cls: Optional[str], qual: str) -> int:
         n = 0
+        self.current = qual
         n += self._block(fn.body, fn, module, cls, qual)
         return n
 
@@ -222,6 +228,10 @@ class Inliner:
             if isinstance(st, ast.Try):
                 for hd in st.handlers:
                     n += self._block(hd.body, fn, module, cls, qual)
+            loopform = self._comp_to_loop(st, module, cls)
+            if loopform is not None:
+                stmts[i:i + 1] = loopform
+                continue
             call = self._find_call(st, module, cls)
             if call is None:
                 i += 1
@@ -236,6 +246,38 @@ class Inliner:
             self.log.append((qual, h.qual))
             # re-examine from the same index (the expansion may contain further helper calls)
         return n
+
+    def _comp_to_loop(self, st: ast.stmt, module, cls) -> Optional[List[ast.stmt]]:
+        """`X = [E(v) for v in S if C]` whose element calls an inlinable helper -> `X = []; for v in S: [if C:] X.append(E(v))`."""
+        if not (isinstance(st, ast.Assign) and len(st.targets) == 1 and isinstance(st.targets[0], ast.Name) and isinstance(st.value, ast.ListComp)):
+            return None
+        c = st.value
+        if len(c.generators) != 1 or c.generators[0].is_async:
+            return None
+        hit = False
+        for e in ast.walk(c.elt):
+            if isinstance(e, ast.Call):
+                h, _r = self._callee(e, module, cls)
+                if h is not None and h.reason is None:
+                    hit = True
+        if not hit:
+            return None
+        g = c.generators[0]
+        x = st.targets[0].id
+        if x in _names_in(c):
+            return None
+        app: ast.stmt = ast.Expr(value=ast.Call(func=ast.Attribute(value=ast.Name(id=x, ctx=ast.Load()), attr="append", ctx=ast.Load()), args=[c.elt], keywords=[]))
+        for cond in reversed(g.ifs):
+            app = ast.If(test=cond, body=[app], orelse=[])
+        loop = ast.For(target=g.target, iter=g.iter, body=[app], orelse=[])
+        init = ast.Assign(targets=[ast.Name(id=x, ctx=ast.Store())], value=ast.List(elts=[], ctx=ast.Load()))
+        for n in (init, loop):
+            ast.copy_location(n, st)
+            ast.fix_missing_locations(n)
+        for n in ast.walk(loop.target):
+            if isinstance(n, ast.Name):
+                n.ctx = ast.Store()
+        return [init, loop]
 
     def _find_call(self, st: ast.stmt, module, cls) -> Optional[ast.Call]:
         """First helper call evaluated unconditionally by the statement's own expressions."""
@@ -416,6 +458,16 @@ def inline_new_helpers(trees: Dict[str, ast.Module], baseline: Optional[Set[str]
         _classify(h)
         helpers[qual] = h
         by_name.setdefault(node.name, []).append(h)
+    for mname, cname, node, qual in funcs:
+        for st in node.body:
+            if isinstance(st, ast.FunctionDef):
+                q2 = f"{qual}.<locals>.{st.name}"
+                if q2 in baseline:
+                    continue
+                h = Helper(q2, st, None, "function", scope=qual)
+                _classify(h)
+                helpers[q2] = h
+                by_name.setdefault(st.name, []).append(h)
     if not helpers:
         return [], []
     inl = Inliner(helpers, by_name)
